@@ -282,11 +282,17 @@ func init() {
 		}
 		pr := run.Rule("DT-presets", "the four verification presets are literals with the flag values the property statement assumes", 20)
 		checkPresets(p, pr)
+		// verification with a precomputed (expanded) public key decides the same predicate (same rule as C09)
+		ve := run.Rule("DT-verify-expanded", "verifyExpandedWithOptionsNoPanic is the same Boolean function of the same conditions as single verification, over the cached key predicates", 300)
+		xs := verifyExpandedSpec()
+		addHram(cfg, xs)
+		edt.Check(ve, cfg, xs)
 		// the S < L admission test used by verification is decided completely (same rule as C05)
 		dts := run.Rule("DT-S", "ScMinimalVartime returns exactly 'little-endian value < L' on every consistent abstract input, false on any other length", 5000)
 		if smp := checkScMinimal(dts, cfg); smp != nil {
 			run.Sample(smp)
 		}
+		arithmeticFoundations(c)
 	}
 }
 
